@@ -330,3 +330,20 @@ theorem getsliceMask_refines {h : Heap} {f mask : View} (wf : f.WF (shape h)) (w
       · intro k hk; exact hp k hk
 
 end ImathVerif.FixedArray
+
+namespace ImathVerif.FixedArray
+open ImathVerif
+
+/-- once the subscript is accepted, `getslice` cannot fail (every read is inside the buffer) -/
+theorem getslice_ok {h : Heap} {v : View} (w : v.WF (shape h)) {idx : PyIdx} {s : SliceIdx} {ms : Int}
+    (hs : extractSliceIndices v.length idx (-1) ms = .ok s) : ∃ r, getslice h v idx ms = .ok r := by
+  have hread : mapE (v.readSliceElem h s) (List.range s.slicelength)
+      = .ok ((List.range s.slicelength).map (fun i => cellAt h v.buf (v.cellPos (s.at i)))) := by
+    apply mapE_ok_of_forall
+    intro i hi
+    exact w.readSliceElem (slice_at_lt' w.lenOk hs i (by simpa using hi))
+  unfold getslice
+  simp only [hs, hread]
+  exact ⟨_, rfl⟩
+
+end ImathVerif.FixedArray
